@@ -465,32 +465,69 @@ def check_py_native(res):
         raise AnalysisError("anchor vanished: _AbstractNativeDataType.__call__")
     item = call.args.args[1].arg
     n = 0
-    # every return is self._as_python_type(item)
+    # local aliases:  name = self._as_packable(item) / self._as_python_type(item)
+    def derived(fn_attr):
+        """names bound to self.<fn_attr>(item)"""
+        out = set()
+        for a in ast.walk(call):
+            if isinstance(a, ast.Assign) and isinstance(a.value, ast.Call) and \
+                    pyfront.unparse(a.value) == "self.%s(%s)" % (fn_attr, item):
+                for t in a.targets:
+                    if isinstance(t, ast.Name):
+                        out.add(t.id)
+        return out
+    packed = derived("_as_packable")
+    normal = derived("_as_python_type")
+    # every return is the normalised value
     rets = [r for r in ast.walk(call) if isinstance(r, ast.Return)]
     n += len(rets)
     for r in rets:
-        if r.value is None or pyfront.unparse(r.value) != "self._as_python_type(%s)" % item:
+        v = pyfront.unparse(r.value) if r.value is not None else ""
+        if not (v == "self._as_python_type(%s)" % item or v in normal):
             res.findings.add(dict(
                 rule="PY-NATIVE-CALL", function="_AbstractNativeDataType.__call__", file=rel,
-                line=r.lineno, construct="return %s" % (pyfront.unparse(r.value) if r.value else ""),
+                line=r.lineno, construct="return %s" % v,
                 detail="the native datatype must return the normalised plain "
                        "value self._as_python_type(item) on every path; "
                        "returning the argument itself stores bool / int "
                        "subclasses / Fractions unnormalised (results and "
                        "pickles differ from the C type)", path=[]))
-    # the pack check is the first statement and dominates every return
-    first = call.body[0] if not (isinstance(call.body[0], ast.Expr) and
-                                 isinstance(call.body[0].value, ast.Constant)) else call.body[1]
+    # the pack check sits in a try that precedes every return, and every
+    # handler of that try raises TypeError
+    def raises_typeerror(h):
+        last = [x for x in ast.walk(h) if isinstance(x, ast.Raise)]
+        if not last:
+            return False
+        for x in last:
+            t = pyfront.unparse(x.exc) if x.exc is not None else ""
+            if t.startswith("TypeError"):
+                continue
+            # raise self.<helper>(...): the helper returns TypeError instances
+            if isinstance(x.exc, ast.Call) and isinstance(x.exc.func, ast.Attribute) and \
+                    pyfront.unparse(x.exc.func.value) == "self":
+                hfn = mem.get(x.exc.func.attr)
+                hr = [r for r in ast.walk(hfn) if isinstance(r, ast.Return)] if isinstance(hfn, ast.FunctionDef) else []
+                if hr and all(r.value is not None and pyfront.unparse(r.value).startswith("TypeError(") for r in hr):
+                    continue
+            return False
+        return True
     n += 1
-    ok = isinstance(first, ast.Try) and any(
-        "self._check_native(self._as_packable(%s))" % item in pyfront.unparse(b) for b in first.body)
-    raises_type = isinstance(first, ast.Try) and all(
-        any(isinstance(x, ast.Raise) and "TypeError" in pyfront.unparse(x) for x in ast.walk(h))
-        for h in first.handlers) and first.handlers
-    if not ok or not raises_type:
+    ok = False
+    for k, st in enumerate(call.body):
+        if isinstance(st, ast.Try):
+            checks = [c for b in st.body for c in ast.walk(b) if isinstance(c, ast.Call)
+                      and pyfront.unparse(c.func) == "self._check_native" and c.args and (
+                          pyfront.unparse(c.args[0]) == "self._as_packable(%s)" % item or
+                          (isinstance(c.args[0], ast.Name) and c.args[0].id in packed))]
+            before = [r for b in call.body[:k] for r in ast.walk(b) if isinstance(r, ast.Return)]
+            inside = [r for b in st.body for r in ast.walk(b) if isinstance(r, ast.Return)
+                      and checks and r.lineno < checks[0].lineno]
+            if checks and not before and not inside and st.handlers and all(raises_typeerror(h) for h in st.handlers):
+                ok = True
+    if not ok:
         res.findings.add(dict(
             rule="PY-NATIVE-CALL", function="_AbstractNativeDataType.__call__", file=rel,
-            line=call.lineno, construct="struct pack check is not the first statement",
+            line=call.lineno, construct="struct pack check does not precede every return",
             detail="every value must be validated by packing it into the "
                    "native struct format before anything is returned, and a "
                    "failure must surface as TypeError", path=[]))
